@@ -30,6 +30,8 @@ type CaseC13 struct {
 	Cycle     bool                     `json:"cycle,omitempty"` // the schedule repeats instead of falling back to one byte per read
 	EOFWith   bool                     `json:"eof_with"`
 	Bufio     bool                     `json:"bufio"`
+	Align     int                      `json:"align,omitempty"`      // > 0: blanks before document AlignDoc make it END on a multiple of Align bytes (buffer and block boundaries)
+	AlignDoc  int                      `json:"align_doc,omitempty"`
 	Stop      int                      `json:"stop"`                 // handlers: return false at the Stop-th document (0: never)
 	DecOpts   uint32                   `json:"dec_opts,omitempty"`   // decoder options in force for the direct and the stream decoding alike (see applyUnrelatedOptions)
 	UseNumber bool                     `json:"use_number,omitempty"` // JSON kinds: mxj.JsonUseNumber is on for the direct and the stream decoding alike
@@ -185,6 +187,10 @@ func genC13(t *rapid.T) CaseC13 {
 	if c.Kind == "json" {
 		c.UseNumber = rapid.IntRange(0, 3).Draw(t, "usenumber") == 0
 	}
+	if rapid.IntRange(0, 9).Draw(t, "align") == 0 {
+		c.Align = rapid.SampledFrom([]int{512, 1024, 4096, 4096, 4096, 8192}).Draw(t, "alignto")
+		c.AlignDoc = rapid.IntRange(0, nd-1).Draw(t, "aligndoc")
+	}
 	c.DecOpts = genUnrelated(t)
 	c.EOFWith = rapid.Bool().Draw(t, "eofWith")
 	c.Bufio = rapid.Bool().Draw(t, "bufio")
@@ -290,6 +296,14 @@ func checkC13(c CaseC13, info *Info) *Failure {
 				return failf("direct-decode-error", "NewMapXml(%q): %v", b, err)
 			}
 			want = append(want, m)
+		}
+		if c.Align > 0 && i == c.AlignDoc {
+			end := stream.Len() + len(c.Lead[i]) + len(b)
+			if c.Kind == "xml" {
+				end += len(prolog)
+			}
+			stream.WriteString(strings.Repeat(" ", (c.Align-end%c.Align)%c.Align))
+			info.ClassIf(i < len(c.Lead)-1, "a document ends on a multiple of 512..8192 bytes and another follows")
 		}
 		stream.WriteString(c.Lead[i])
 		if c.Kind == "xml" {
